@@ -756,7 +756,7 @@ Qed.
 
 Definition no_adapt : adapt := {| a_on := false; a_body := ""; a_compress := false; a_decompress := false |}.
 Definition cfg0 : pcfg :=
-  {| p_cstream := false; p_sstream := false; p_server_host := "backend:80"; p_host_is_name := true;
+  {| p_cstream := false; p_pool_max := 0; p_proxy_max := 0; p_server_host := "backend:80"; p_host_is_name := true;
      p_keep_host := false; p_minlen := None; p_ra := no_adapt; p_rs := no_adapt |}.
 Definition with_flag (i : N) : quirks :=
   {| q_compress_keeps_length := (i =? 1)%N; q_adaptor_body_keeps_length := (i =? 2)%N;
@@ -776,7 +776,7 @@ Theorem refuted_compress_len :
     w_status w = 200 /\ decode f (w_headers w) (w_body w) <> Some (adapted (p_rs c) content).
 Proof.
   exists toy_fns,
-    {| p_cstream := false; p_sstream := false; p_server_host := "backend:80"; p_host_is_name := true;
+    {| p_cstream := false; p_pool_max := 0; p_proxy_max := 0; p_server_host := "backend:80"; p_host_is_name := true;
        p_keep_host := false; p_minlen := Some 0; p_ra := no_adapt; p_rs := no_adapt |},
     [("Accept-Encoding", ["gzip"])], false, resp5, "hello".
   eexists. split; [exact toy_round_trip|]. split; [intros d H; inversion H; reflexivity|].
@@ -791,7 +791,7 @@ Theorem refuted_adaptor_body_len :
     w_frame_ok w = false /\ w_cl w = Some 5 /\ w_body w = "".
 Proof.
   exists toy_fns,
-    {| p_cstream := false; p_sstream := false; p_server_host := "backend:80"; p_host_is_name := true;
+    {| p_cstream := false; p_pool_max := 0; p_proxy_max := 0; p_server_host := "backend:80"; p_host_is_name := true;
        p_keep_host := false; p_minlen := None; p_ra := no_adapt;
        p_rs := {| a_on := true; a_body := "adapted"; a_compress := false; a_decompress := false |} |},
     [], false, resp5.
@@ -823,7 +823,7 @@ Theorem refuted_stream_compress_panics :
   exists f c hs added b, backend_well_framed b /\ respond (with_flag 4) f c hs added b = None.
 Proof.
   exists toy_fns,
-    {| p_cstream := false; p_sstream := true; p_server_host := "backend:80"; p_host_is_name := true;
+    {| p_cstream := false; p_pool_max := -1; p_proxy_max := 0; p_server_host := "backend:80"; p_host_is_name := true;
        p_keep_host := false; p_minlen := Some 0; p_ra := no_adapt; p_rs := no_adapt |},
     [], false, resp5.
   split; [intros d H; inversion H; reflexivity|]. vm_compute. reflexivity.
@@ -838,7 +838,7 @@ Theorem refuted_compress_replaces_label :
     h_values_exact CE (w_headers w) = ["gzip"] /\ f_gunzip f (w_body w) = Some (br_body b).
 Proof.
   exists toy_fns,
-    {| p_cstream := false; p_sstream := false; p_server_host := "backend:80"; p_host_is_name := true;
+    {| p_cstream := false; p_pool_max := 0; p_proxy_max := 0; p_server_host := "backend:80"; p_host_is_name := true;
        p_keep_host := false; p_minlen := Some 0; p_ra := no_adapt; p_rs := no_adapt |},
     [("Accept-Encoding", ["gzip, br"])], false,
     {| br_status := 200; br_headers := [("Content-Encoding", ["br"])]; br_enc := EncCL 5; br_body := "BROTL" |}.
@@ -864,7 +864,7 @@ Example proxy_nonvacuous :
               cq_headers := [("Connection", ["X-Foo, close"]); ("X-Foo", ["1"]); ("Keep-Alive", ["5"]);
                              ("Te", ["trailers"]); ("X-Trace", ["a"; "b"]); ("Accept-Encoding", ["gzip"])];
               cq_body := "ping" |} in
-  let c := {| p_cstream := false; p_sstream := true; p_server_host := "backend:80"; p_host_is_name := true;
+  let c := {| p_cstream := false; p_pool_max := -1; p_proxy_max := 0; p_server_host := "backend:80"; p_host_is_name := true;
               p_keep_host := false; p_minlen := Some 0; p_ra := no_adapt; p_rs := no_adapt |} in
   match exchange ideal toy_fns c r resp5 with
   | Answered w (Some b) =>
@@ -1025,7 +1025,7 @@ End History.
 
 (** non-vacuity: miss, hit, hit on one resource with a compressing ResponseAdaptor *)
 Example history_nonvacuous :
-  let c := {| p_cstream := false; p_sstream := false; p_server_host := "backend:80"; p_host_is_name := true;
+  let c := {| p_cstream := false; p_pool_max := 0; p_proxy_max := 0; p_server_host := "backend:80"; p_host_is_name := true;
               p_keep_host := false; p_minlen := None; p_ra := no_adapt;
               p_rs := {| a_on := true; a_body := ""; a_compress := true; a_decompress := false |} |} in
   let s := {| mc_on := true; mc_codes := [200]; mc_methods := ["GET"]; mc_max := 100 |} in
@@ -1098,7 +1098,7 @@ Example request_content_nonvacuous :
   let r := {| cq_method := "PUT"; cq_target := "/x"; cq_host := "front.test";
               cq_headers := [("Content-Encoding", ["gzip"]); ("Connection", ["close"])];
               cq_body := toy_gzip "payload" |} in
-  let c := {| p_cstream := false; p_sstream := false; p_server_host := "backend:80"; p_host_is_name := false;
+  let c := {| p_cstream := false; p_pool_max := 0; p_proxy_max := 0; p_server_host := "backend:80"; p_host_is_name := false;
               p_keep_host := false; p_minlen := None;
               p_ra := {| a_on := true; a_body := ""; a_compress := false; a_decompress := true |}; p_rs := no_adapt |} in
   label_simple (cq_headers r) /\ decode toy_fns (cq_headers r) (cq_body r) = Some "payload" /\
